@@ -104,6 +104,11 @@ PROPS = {
 # a failed obligation carrying one of these tags weakens every other mapper proof. Such a failure counts against another property only together
 # with a concrete failing input for that property (check: rests_on), never on its own.
 _INV_TAGS = ['C19', 'C01', 'C02', 'C03']
+# the two converter properties share every converter function: a failed obligation tagged with one weakens the proof of the other
+for _p, _t in (('C13', 'C14'), ('C14', 'C13')):
+    _r = list(PROPS[_p].get('rests_on') or [])
+    if _t not in _r: _r.append(_t)
+    PROPS[_p]['rests_on'] = _r
 # the same holds for the four properties of the per-device loop and its four invariants
 for _p in ('C10', 'C11', 'C12', 'C20'):
     _r = list(PROPS[_p].get('rests_on') or [])
